@@ -1,7 +1,7 @@
 """Replay for C15 on a real ShelfManager: file-name/pattern agreement, unique numbering over create/delete sequences,
 a failing shelf write never touches the tree and never leaks the file handle."""
 import itertools, os, shutil, tempfile
-from _common import request, verdict
+from _common import request, verdict, is_known
 import breezy.bzr  # noqa
 from breezy import controldir, shelf
 from breezy.transport import get_transport
@@ -78,6 +78,93 @@ try:
         verdict(True, "the tree was transformed before the shelf file was written and closed", observed=str(log))
     if n not in m.active_shelves():
         verdict(True, "the shelf returned by shelve_changes is not listed", observed=str((n, m.active_shelves())))
+    # shelve a SUBSET of the tree's changes, then unshelve onto the unchanged result: exactly the shelved changes leave the tree, all
+    # others stay, and unshelving restores content and versioning
+    import itertools as _it, stat as _stat
+    from breezy import shelf as _shelf
+
+    def snap(d_, wt_):
+        wt2 = wt_.controldir.open_workingtree()
+        out = {}
+        with wt2.lock_read():
+            for p_, e_ in wt2.iter_entries_by_dir():
+                if not p_:
+                    continue
+                ab = os.path.join(d_, p_)
+                if e_.kind == "file" and os.path.isfile(ab):
+                    out[p_] = ("file", open(ab, "rb").read(), bool(os.stat(ab).st_mode & _stat.S_IXUSR))
+                else:
+                    out[p_] = (e_.kind,)
+        return out
+
+    def make():
+        d_ = os.path.join(base, "sh%d" % (tried + 1)); os.mkdir(d_)
+        cd_ = controldir.format_registry.make_controldir("2a").initialize(d_); cd_.create_repository(); cd_.create_branch()
+        wt_ = cd_.create_workingtree()
+        for n_ in ("mod", "ren", "del", "exe"):
+            open(os.path.join(d_, n_), "w").write(n_ + " one\n")
+        wt_.add(["mod", "ren", "del", "exe"], ids=[b"mod-id", b"ren-id", b"del-id", b"exe-id"]); wt_.commit("1", committer="t <t@e.x>")
+        committed = snap(d_, wt_)
+        # five independent changes
+        open(os.path.join(d_, "mod"), "w").write("mod two\n")
+        wt_.rename_one("ren", "ren2")
+        wt_.remove(["del"], keep_files=False)
+        os.chmod(os.path.join(d_, "exe"), 0o755)
+        open(os.path.join(d_, "new"), "w").write("new\n"); wt_.add(["new"], ids=[b"new-id"])
+        return d_, wt_, committed
+
+    kinds = ["modify text", "rename", "delete file", "modify target", "add file"]     # as ShelfCreator.iter_shelvable names them
+    fids = {b"mod-id": "mod", b"ren-id": "ren", b"del-id": "del", b"exe-id": "exe", b"new-id": "new"}
+    for r_ in (1, 2, 5):
+        for chosen in _it.combinations(sorted(fids), r_):
+            tried += 1
+            d_, wt_, committed = make()
+            changed = snap(d_, wt_)
+            with wt_.lock_tree_write():
+                creator = _shelf.ShelfCreator(wt_, wt_.basis_tree())
+                try:
+                    for ch_ in list(creator.iter_shelvable()):
+                        fid_ = ch_[1]
+                        if fid_ in chosen:
+                            creator.shelve_change(ch_)
+                    sid = wt_.get_shelf_manager().shelve_changes(creator, "m")
+                finally:
+                    creator.finalize()
+            after = snap(d_, wt_)
+            # expected: for chosen file ids the committed state, for the others the changed state
+            path_of = {b"mod-id": ("mod", "mod"), b"ren-id": ("ren", "ren2"), b"del-id": ("del", None), b"exe-id": ("exe", "exe"), b"new-id": (None, "new")}
+            want = {}
+            for fid_, (old_p, new_p) in path_of.items():
+                if fid_ in chosen:
+                    if old_p is not None:
+                        want[old_p] = committed[old_p]
+                elif new_p is not None:
+                    want[new_p] = changed[new_p]
+            if after != want and b"exe-id" in chosen:
+                # an executable-bit-only change is never offered by iter_shelvable, so it cannot be shelved (finding F18)
+                wc = "an executable-bit-only change selected for shelving"
+                want_known = dict(want); want_known["exe"] = changed["exe"]
+                if after == want_known and is_known(wc):
+                    want = want_known
+                elif after == want_known:
+                    verdict(True, "an executable-bit change cannot be shelved: it is not offered by ShelfCreator.iter_shelvable and stays in the tree "
+                                  "even when everything is shelved", witness_class=wc, input=dict(shelved=[fids[f_] for f_ in chosen]),
+                            observed=str(after.get("exe")), expected=str(want.get("exe")))
+            if after != want:
+                verdict(True, "shelving a subset of the changes did not remove exactly those changes from the tree",
+                        input=dict(shelved=[fids[f_] for f_ in chosen]), observed=str(after), expected=str(want))
+            with wt_.lock_tree_write():
+                un = wt_.get_shelf_manager().get_unshelver(sid)
+                try:
+                    un.make_merger().do_merge()
+                    wt_.get_shelf_manager().delete_shelf(sid)
+                finally:
+                    un.finalize()
+            back = snap(d_, wt_)
+            if back != changed:
+                verdict(True, "unshelving onto the unchanged result did not restore the tree", input=dict(shelved=[fids[f_] for f_ in chosen]),
+                        observed=str(back), expected=str(changed))
+            shutil.rmtree(d_, ignore_errors=True)
     verdict(False, "no failing input among %d sequences" % tried)
 finally:
     shutil.rmtree(base, ignore_errors=True)
